@@ -4,7 +4,7 @@ import Driver.Common
 task-group / cancellation LTS `Haiway.Groups`.
 
 tokens (one case per line, in the order the event loop executed them):
-  rel.G  cancel.T  start.T  enter.T.B.(A|S)  spawn.T.C.(s|c)  spawnfail.T.C  await.T.G  resume.T.G.(ok|c)
+  rel.G  cancel.T  start.T  enter.T.B.(A|S)  enterfail.T.B  spawn.T.C.(s|c)  spawnfail.T.C  await.T.G  resume.T.G.(ok|c)
   raise.T.(e|b)  caught.T.O  check.T.(0|1)  cancelself.T  bodyend.T.B.O  left.T.B.O.ALIVE  end.T.O
   seen.T.(B|-)            observation only: the group a `ctx.spawn` would join, as fingerprinted by the harness
   fin.T.(O|pending)       observation only: state of the asyncio Task when the run is over
@@ -46,6 +46,7 @@ def parseItem (tok : String) : Option Item :=
   | ["cancel", t] => do pure (.lab (.cancel (← t.toNat?)) none)
   | ["start", t] => do pure (.lab (.start (← t.toNat?)) none)
   | ["enter", t, b, k] => do pure (.lab (.enter (← t.toNat?) (← b.toNat?) (k == "A")) none)
+  | ["enterfail", t, b] => do pure (.lab (.enterfail (← t.toNat?) (← b.toNat?)) none)
   | ["spawn", t, c, h] => do pure (.lab (.spawn (← t.toNat?) (← c.toNat?) (h == "s")) none)
   | ["spawnfail", t, c] => do pure (.lab (.spawnfail (← t.toNat?) (← c.toNat?)) none)
   | ["await", t, g] => do pure (.lab (.await (← t.toNat?) (← g.toNat?)) none)
